@@ -100,7 +100,12 @@ class VThread:
 
 
 class Sched:
-    def __init__(self, prefix=(), use_sleep=True, horizon=HORIZON):
+    def __init__(self, prefix=(), use_sleep=True, horizon=HORIZON, forced=None, sleep_after=None):
+        self.forced = None if forced is None else list(forced)      # DPOR mode: thread id to run at every step
+        self.sleep_after = dict(sleep_after or {})                  # sleep set {tid: label} installed after the prefix
+        self.dsleep = {}
+        self.steps_rec = []         # DPOR mode: (enabled {tid: label}, chosen tid, sleep {tid: label}) per step
+        self.spawned_at = {}        # tid -> index of the step during which the thread was spawned
         self.prefix = list(prefix)
         self.pos = 0
         self.threads = []
@@ -116,6 +121,8 @@ class Sched:
         self.horizon = horizon
         self.ids = collections.Counter()
         self.trace = []             # (tid, label) of every executed visible operation
+        self.timeout_budget = 2     # how many timed waits may expire although another thread could still run
+        self.timeouts_fired = 0
         self.branching = True       # False: follow the default schedule without recording choice points
         self.log_points = frozenset()    # names of log events that are points dependent with other log points only
         self.sync_events = frozenset()   # names of log events that are scheduling points ordered against everything
@@ -130,6 +137,7 @@ class Sched:
         t = VThread(len(self.threads), name)
         self.threads.append(t)
         t.pending = ('thr', t.tid)
+        self.spawned_at[t.tid] = self.steps - 1
 
         def run():
             t.sem.acquire()
@@ -138,12 +146,17 @@ class Sched:
                 return
             _TL.vt = t
             try:
-                target()
+                try:
+                    target()
+                except Abort:
+                    raise
+                except BaseException as e:      # noqa: BLE001
+                    t.exc = e
+                # the end of a thread is a visible operation: join() / is_alive() depend on it
+                self.point(('thr', t.tid))
             except Abort:
                 t.done = True
                 return
-            except BaseException as e:      # noqa: BLE001
-                t.exc = e
             t.done = True
             t.pending = None
             if not self.abort:
@@ -160,6 +173,10 @@ class Sched:
                 continue
             if t.cond is None or t.cond():
                 t.timed_out = False
+                en.append(t)
+            elif t.timeout_ok and self.timeouts_fired < self.timeout_budget and self.branching:
+                # a deviation from the default environment answer: the timeout expires early
+                t.timed_out = True
                 en.append(t)
         if not en:
             # quiescence: operations with a timeout may now fire
@@ -183,6 +200,8 @@ class Sched:
             self._fail(Deadlock('; '.join(
                 f'{t.name}#{t.tid} blocked at {t.pending}' for t in self.threads if not t.done)))
             return None
+        if self.forced is not None and self.branching:
+            return self._dispatch_dpor(cur, en)
         if not self.branching:
             self.sleep = set()
         cand = [t for t in en if t.tid not in self.sleep]
@@ -218,6 +237,39 @@ class Sched:
             nxt.sem.release()
         return nxt
 
+    def _dispatch_dpor(self, cur, en):
+        step = len(self.steps_rec)
+        en_map = {t.tid: t.pending for t in en}
+        if step < len(self.forced):
+            tid = self.forced[step]
+            if tid not in en_map:
+                self._fail(ReplayDivergence(f'thread {tid} is not enabled at step {step} ({sorted(en_map)})'))
+                return None
+            nxt = self.threads[tid]
+            sleep_here = {}
+        else:
+            if step == len(self.forced):
+                self.dsleep = dict(self.sleep_after)
+            cand = [t for t in en if t.tid not in self.dsleep]
+            if not cand:
+                self.pruned = True
+                self._fail(None)
+                return None
+            cand.sort(key=lambda t: (t is not cur, t.tid))
+            nxt = cand[0]
+            sleep_here = dict(self.dsleep)
+            self.dsleep = {tid: lab for tid, lab in self.dsleep.items()
+                           if tid != nxt.tid and not dependent(lab, nxt.pending)}
+        self.steps_rec.append((en_map, nxt.tid, sleep_here))
+        self.steps += 1
+        self.trace.append((nxt.tid, nxt.pending))
+        if self.steps > self.horizon:
+            self._fail(HorizonExceeded(f'more than {self.horizon} visible operations'))
+            return None
+        if nxt is not cur:
+            nxt.sem.release()
+        return nxt
+
     def point(self, label, cond=None, timeout_ok=False):
         """Called by the running thread BEFORE it performs a visible operation."""
         if self.abort:
@@ -231,7 +283,10 @@ class Sched:
             cur.sem.acquire()
         if self.abort:
             raise Abort()
-        return cur.timed_out
+        if cond is not None and timeout_ok and not cond():
+            self.timeouts_fired += 1
+            return True
+        return False
 
     def _fail(self, err):
         if err is not None and self.error is None:
